@@ -10,6 +10,7 @@ import GoRes.Driver.Codec
 import GoRes.Driver.ReqLoad
 import GoRes.Driver.SendReq
 import GoRes.Driver.QE
+import GoRes.Driver.Legacy
 /-! `gores-driver <domain>`: one op line in, one line `model<TAB>spec<TAB>tag` out. -/
 open GoRes GoRes.Wire
 
@@ -19,6 +20,7 @@ structure DState where
   pool : GoRes.Driver.Pool.VSt := {}
   idx : GoRes.Driver.Idx.St := {}
   qe : GoRes.Driver.QE.DSt := {}
+  legacy : GoRes.Driver.Legacy.DSt := {}
 
 def stepLine (dom : String) (st : DState) (full : String) : DState × String :=
   -- a line is `op` or `op<TAB>implementation outcome`
@@ -61,6 +63,9 @@ def stepLine (dom : String) (st : DState) (full : String) : DState × String :=
       let (qs, m, s, t) := GoRes.Driver.QE.run st.qe args impl
       ({ st with qe := qs }, m ++ "\t" ++ s ++ "\t" ++ t)
     | "race" => (st, "done\tdone\trace-scenario")
+    | "legacy" =>
+      let (ls, m, s, t) := GoRes.Driver.Legacy.run st.legacy args
+      ({ st with legacy := ls }, m ++ "\t" ++ s ++ "\t" ++ t)
     | "subs" => let (m, s, t) := GoRes.Driver.Subs.run args impl; (st, m ++ "\t" ++ s ++ "\t" ++ t)
     | _ => (st, "bad-domain\t-\tbad")
 
